@@ -41,6 +41,11 @@ CHECKS = {
    note="Trusted: Coq kernel; hand model Model/Header.v; reading of the derived Debug output (pv/deltatree.py); refs_local is a checked, not proved, invariant of the parser. Print Assumptions: closed.",
    technique="Coq proof: build_header = filter-and-convert specification under zone well-formedness (invariant of the buffer operations proved); differential correspondence on real node arrays",
    design="5/C17"),
+ "C11": dict(
+   text="Machine-checked proof (Coq) about the containment machinery that makes declaration order irrelevant: a cycle code (E413/E415/E416) is raised iff the containment graph of constants and structures has a cycle, for any order and multiplicity of edge processing; contained sets are exactly the reachability closure; for acyclic graphs every container gets a depth larger than everything it contains, the depth is the longest containment path and is invariant under every permutation of declarations and edges; the stable sort of analyze_and_resolve puts each container after what it contains and functions last; everything on or behind a cycle is poisoned. (Which cycle code is reported does depend on order: proved by witness, and the check compares verdicts, not code lists.) Tie: random dependency graphs in two source orders through the real front end (verdict, cycle codes, scoper depths vs the extracted model) and permuted generated programs executed with lli. Type legality per position (E350-E359, E380) is not covered here (partial).",
+   note="Trusted: Coq kernel; hand model Model/Containers.v; the generator computes the edge list in the scoper's visiting order. Known finding D21 (resolver panic on a pointer to a self-containing structure). Print Assumptions: closed.",
+   technique="Coq proof: reachability-closure invariant, cycle iff code, depth = longest path (permutation invariance), sort respects dependencies; differential correspondence + metamorphic permutation execution",
+   design="5/C11"),
 }
 
 NOT_YET = {
